@@ -161,6 +161,37 @@ class Segment(CoreSummaries, Contract):
         rp = {'held': self.held_text, 'inflight_pre': self.inflight_pre, 'inflight_post': self.inflight_post}
         cl = [Clause('C05.balance', ['C05', 'C04'], fn=self.balance_clause(), when='normal', kind='balance', replay=rp,
                      note='own ref-count effect of the segment == change of (buffered holds + holds of the suspended frame)')]
+        if self.emission_must_be_awaited:
+            cl.append(Clause('C03.what_is_emitted_is_awaited_by_the_coroutine_not_returned', ['C03', 'C02'],
+                             fn=lambda self_, I, o, fr: (z3.Length(sym.flat_aw(o.state.ghost['emit_rets'].t)) == 0)
+                             if 'emit_rets' in o.state.ghost else None,
+                             when='return',
+                             note='the result of a coroutine is not awaited by its caller: a segment that emits and then returns '
+                                  'hands the downstream awaitables to nobody (no backpressure, async consumers never run)'))
+        if self.emission_must_be_awaited:
+            def awaited_at_yield(self_, I, o, fr):
+                g = o.state.ghost
+                if 'emit_rets' not in g or '_last_emit_ret' not in g:
+                    return None
+                ret = g['_last_emit_ret']
+                v = o.value
+                covered = False
+                if isinstance(v, (VList, VSeq)):
+                    cur = I.st
+                    I.st = o.state
+                    try:
+                        t, k = I.seq_term(v)
+                    finally:
+                        I.st = cur
+                    covered = t is not None and t.eq(ret)
+                elif isinstance(v, VAw):
+                    covered = any(c.eq(ret) for c in getattr(v, 'covers', []))
+                if covered:
+                    return None
+                # the segment ends by awaiting something else: fine only if the last emission left nothing to wait for
+                return z3.Length(ret) == 0
+            cl.append(Clause('C03.coroutine_suspends_on_what_it_has_just_emitted', ['C03', 'C02'], fn=awaited_at_yield, when='yield',
+                             note='a coroutine that emits and then awaits something else (or nothing) does not wait for its consumers'))
         if self.data_fields and self.reentrancy_generic:
             cl.append(Clause('C01.state_is_final_before_every_emission', ['C01', 'C02', 'C05', 'C08'], fn=self.generic_reentrancy(),
                              when='normal', kind='reentrancy',
@@ -169,6 +200,7 @@ class Segment(CoreSummaries, Contract):
         return cl
 
     reentrancy_generic = True
+    emission_must_be_awaited = True
 
     def generic_reentrancy(self):
         def fn(self_, I, o, fr):
@@ -302,9 +334,22 @@ def coroutine_call_summary(qual):
             except SegmentYield as e:
                 done = False
                 idx = e.index
+                yielded = e.value
         finally:
             I.yield_ids = saved
         aw = VAw(z3.Const(sym.fresh_name('coro_aw'), sym.Aw))
+        aw.covers = []
+        if not done:
+            # the future of the called coroutine stands for whatever that coroutine is itself suspended on
+            if isinstance(yielded, (VList, VSeq)):
+                try:
+                    t, k = I.seq_term(yielded)
+                    if t is not None:
+                        aw.covers = [t]
+                except Unsupported:
+                    pass
+            elif isinstance(yielded, VAw):
+                aw.covers = list(getattr(yielded, 'covers', []))
         pend = g.get('pending_coroutines', VTuple([]))
         if not done:
             g['pending_coroutines'] = VTuple(pend.items + [VTuple([VStr(qual), VInt(idx)])])
